@@ -418,7 +418,9 @@ class TypeGen:
             f["kind"] = "init_false"
             has_default = True
         f["t"] = self.nolit(f["t"])
-        if has_default:
+        if has_default and agg is not None and agg != "flatten":
+            f["default"] = {"c": ["dict", []]}  # (a non-empty default would have to respect the key pattern)
+        elif has_default:
             f["default"] = {"c": value_for(d, self.prog, f["t"], fuel=1, stack=self.stack)}
             if f.get("kind") == "initvar" and not build._immutable(f["default"]["c"]):
                 del f["default"]  # InitVar fields cannot have a default factory
